@@ -434,45 +434,60 @@ pub fn grid(tier: Tier) -> Vec<Config> {
 /// history of the C01 alphabet up to the depth.
 pub fn policy_differential(tier: Tier, threads: usize) -> CheckOutcome {
     let t0 = Instant::now();
-    let mut cfgs = props::seq_cfgs("C01", tier);
-    let a = cfgs.remove(0);
-    let mut b = cfgs.remove(0);
-    b.depth = a.depth;
-    let mut a = a;
-    if tier == Tier::Thorough {
-        a.depth = 6;
-        b.depth = 6;
+    // the first alphabet of every property that does not need an eviction policy of its own
+    let mut violations: Vec<Violation> = vec![];
+    let (mut executions, mut states, mut transitions) = (0u64, 0u64, 0u64);
+    let mut capped: Option<String> = None;
+    let mut mach: Option<String> = None;
+    let mut parts: Vec<serde_json::Value> = vec![];
+    for prop in ["C01", "C02", "C06", "C07", "C08"] {
+        let mut a = props::seq_cfgs(prop, tier).remove(0);
+        a.sut.policy = crate::sut::Policy::None;
+        a.depth = if tier == Tier::Quick { a.depth.saturating_sub(1).max(3) } else { a.depth.saturating_sub(2).max(4) }.min(6);
+        let mut b = a.clone();
+        b.sut.policy = crate::sut::Policy::Random(1 << 40);
+        b.name = format!("{}/random-unreached", a.name);
+        let rep = crate::pair::explore_diff(&a, &b, threads);
+        executions += rep.executions;
+        states += rep.states;
+        transitions += rep.transitions;
+        if rep.capped.is_some() {
+            capped = rep.capped.clone();
+        }
+        if rep.machinery_error.is_some() {
+            mach = rep.machinery_error.clone();
+        }
+        parts.push(json!({"alphabet": a.name, "depth_completed": rep.depth_reached, "states": rep.states, "transitions": rep.transitions, "capped": rep.capped}));
+        for f in rep.found.iter() {
+            if violations.iter().any(|v| v.signature == f.signature) {
+                continue;
+            }
+            violations.push(Violation {
+                signature: f.signature.clone(),
+                what: format!("eviction policy none vs random (limit 2^40, never reached): {}  after [{}] (alphabet of {})", f.detail, f.hist_text.join(" ; "), a.name),
+                replay: json!({"engine": "c20-differential", "history_text": f.hist_text}),
+            });
+        }
     }
-    let rep = crate::pair::explore_diff(&a, &b, threads);
-    let violations = rep
-        .found
-        .iter()
-        .map(|f| Violation {
-            signature: f.signature.clone(),
-            what: format!("eviction policy none vs random (limit 2^40, never reached): {}  after [{}]", f.detail, f.hist_text.join(" ; ")),
-            replay: json!({"engine": "c20-differential", "history_text": f.hist_text}),
-        })
-        .collect();
     CheckOutcome {
         property: "C20".into(),
         tier: if tier == Tier::Quick { "quick".into() } else { "thorough".into() },
         level: "exploration",
         coverage: json!({
-            "evaluations": rep.executions,
-            "distinct_nontrivial": rep.states,
-            "states": rep.states,
-            "transitions": rep.transitions,
-            "traces_validated_against_impl": rep.executions,
-            "depth_completed": rep.depth_reached,
-            "capped": rep.capped,
-            "samples": rep.samples.iter().map(|s| json!({"differential_history": s})).collect::<Vec<_>>(),
-            "exhaustive": rep.capped.is_none(),
-            "rule": "BFS over all command histories of the C01 alphabet (incl. rejected and matching CAS stores) up to the depth, applied in-process to a store without eviction policy and to one with the random policy and a limit of 2^40: byte-identical responses and equal stores after every command",
+            "evaluations": executions,
+            "distinct_nontrivial": states,
+            "states": states,
+            "transitions": transitions,
+            "traces_validated_against_impl": executions,
+            "alphabets": parts,
+            "capped": capped,
+            "exhaustive": capped.is_none(),
+            "rule": "BFS over all command histories of the first alphabets of C01, C02, C06, C07 and C08 (every command kind incl. stores, deletes and counters with matching / stale / arbitrary CAS, flushes, clock steps) up to the depth, applied in-process to a store without eviction policy and to one with the random policy and a limit of 2^40: byte-identical responses and equal stores after every command",
         }),
         assumptions: vec![],
         violations,
         wall_s: t0.elapsed().as_secs_f64(),
-        machinery_error: rep.machinery_error,
+        machinery_error: mach,
     }
 }
 
